@@ -112,6 +112,7 @@ class Scheduler(object):
         self.n_points = 0
         self.waitfor = []
         self.lh = 0                     # incremental hash of thread locations
+        self.in_pred = False            # evaluating wait predicates: shim operations are inert
 
     # ------------------------------------------------------------------ helpers
     def new_serial(self):
@@ -243,6 +244,13 @@ class Scheduler(object):
     def _pick(self, cur):
         """Return the thread to run next (possibly cur); ends the execution if none."""
         threads = self.threads
+        self.in_pred = True
+        try:
+            return self._pick2(cur, threads)
+        finally:
+            self.in_pred = False
+
+    def _pick2(self, cur, threads):
         while True:
             n = len(threads)
             start = cur.idx
@@ -471,7 +479,7 @@ class _Prim(object):
         lt = getattr(_tls, "lt", None)
         if lt is None or lt.sched is not s:
             return None
-        if s.phase != "run":
+        if s.phase != "run" or s.in_pred:
             return None
         return s, lt
 
